@@ -21,6 +21,9 @@ from .common import call, same, is_symbolic, PathAbort
 PROP = "C03"
 INF = float("inf")
 LABELS = ["", "a", "lbl 1", "R_2"]
+# sub-circuit shapes of a container element: single element, series, parallel, and series made of connections only
+SUB_SHAPES = ["e", ("S", ("e", "e")), ("P", ("e", "e")), ("S", (("P", ("e", "e")),)), ("S", (("P", ("e", "e")), ("P", ("e", "e")))),
+              ("S", ("e", ("P", ("e", "e"))))]
 
 
 # --------------------------------------------------------------------------- sentinels
@@ -91,7 +94,8 @@ def _classes():
 
 
 # --------------------------------------------------------------------------- generator
-FORMS = ("omitted", "value", "value_lower", "value_lower_upper", "value_upper", "percent", "inf_limits")
+FORMS = ("omitted", "value", "value_lower", "value_lower_upper", "value_upper", "percent", "inf_limits", "upper_inf", "lower_inf",
+         "lower_inf_upper", "lower_upper_inf")
 
 
 def gen_param(eng, Class, key: str, name: str, forms) -> Tuple[Dict[str, Any], Dict[str, Any]]:
@@ -137,6 +141,22 @@ def gen_param(eng, Class, key: str, name: str, forms) -> Tuple[Dict[str, Any], D
     elif form == "inf_limits":
         spec["lower"], spec["upper"] = "inf", "inf"
         want["lower"], want["upper"] = -INF, INF
+    elif form == "upper_inf":            # K=v//inf
+        spec["upper"] = "inf"
+        want["upper"] = INF
+    elif form == "lower_inf":            # K=v/inf
+        spec["lower"] = "inf"
+        want["lower"] = -INF
+    elif form == "lower_inf_upper":      # K=v/inf/u
+        up = eng.real(name + ".upper")
+        eng.assume(v <= up)
+        spec["lower"], spec["upper"] = "inf", up
+        want["lower"], want["upper"] = -INF, up
+    elif form == "lower_upper_inf":      # K=v/l/inf
+        lo = eng.real(name + ".lower")
+        eng.assume(lo <= v)
+        spec["lower"], spec["upper"] = lo, "inf"
+        want["lower"], want["upper"] = lo, INF
     # the value has to respect the limits that stay at their defaults only if the parser checks them: it does not
     return spec, want
 
@@ -155,8 +175,9 @@ def gen_element(eng, name: str, symbols, forms, depth: int, budget: List[int], r
             e.spec[key], e.given[key] = gen_param(eng, Class, key, "%s.%s" % (name, key), ("omitted",))
     if hasattr(Class, "get_default_subcircuits") and Class.get_default_subcircuits():
         keys = sorted(Class.get_default_subcircuits())
-        for key in keys[:2] if depth > 0 else []:
-            k = eng.choice(5, "%s.%s.sub" % (name, key))
+        for pos, key in enumerate(keys[:2] if depth > 0 else []):
+            nopt = 3 + 2 * len(SUB_SHAPES) if pos == 0 else 3
+            k = eng.choice(nopt, "%s.%s.sub" % (name, key))
             if k == 0:
                 continue                      # not spelled: default sub-circuit
             if k == 1:
@@ -164,11 +185,22 @@ def gen_element(eng, name: str, symbols, forms, depth: int, budget: List[int], r
             elif k == 2:
                 e.subs[key], e.sub_form[key] = "short", ("short", "zero")[eng.choice(2, "%s.%s.word" % (name, key))]
             else:
-                if budget[0] <= 0:
-                    raise PathAbort("leaf budget")
-                sub = gen_connection(eng, "%s.%s" % (name, key), symbols, forms, depth - 1, budget, rich=False, allow_element=True)
+                shape = SUB_SHAPES[(k - 3) // 2]
+
+                def mk(sh):
+                    if sh == "e":
+                        if budget[0] <= 0:
+                            raise PathAbort("leaf budget")
+                        budget[0] -= 1
+                        x = EL("R")
+                        x.spec["R"], x.given["R"] = gen_param(eng, classes["R"], "R", "sub", ("omitted",))
+                        return x
+                    return CON(sh[0], [mk(c) for c in sh[1]])
+                sub = mk(shape)
+                if isinstance(sub, EL):
+                    sub = CON("S", [sub])
                 e.subs[key] = sub
-                e.sub_form[key] = "bracket" if k == 3 else "bare"
+                e.sub_form[key] = "bracket" if (k - 3) % 2 == 0 else "bare"
     return e
 
 
@@ -205,9 +237,11 @@ def print_element(S: Sentinels, e: EL, space: str) -> str:
         if form == "omitted":
             continue
         t = "%s%s=%s%s%s" % (key, space, space, fmt_num(S, sp["value"]), sp["fixed"])
-        if form == "value_lower":
+        if form in ("value_lower", "lower_inf"):
             t += "%s/%s%s" % (space, space, fmt_num(S, sp["lower"]))
-        elif form in ("value_lower_upper", "inf_limits"):
+        elif form == "upper_inf":
+            t += "%s/%s/%s%s" % (space, space, space, fmt_num(S, sp["upper"]))
+        elif form in ("value_lower_upper", "inf_limits", "lower_inf_upper", "lower_upper_inf"):
             t += "%s/%s%s%s/%s%s" % (space, space, fmt_num(S, sp["lower"]), space, space, fmt_num(S, sp["upper"]))
         elif form == "value_upper":
             t += "%s/%s/%s%s" % (space, space, space, fmt_num(S, sp["upper"]))
@@ -352,7 +386,7 @@ def make_spelling_harness(symbols, forms, leaves: int, depth: int, name: str, pl
     return harness
 
 
-def make_roundtrip_harness(symbols, leaves: int, depth: int, decimals: int):
+def make_roundtrip_harness(symbols, leaves: int, depth: int, decimals: int, symbolic_state: bool = True):
     """library emitter -> parser: same circuit; re-serialising and deep copies give the identical text"""
     def harness(eng):
         from pyimpspec.circuit.series import Series
@@ -360,18 +394,43 @@ def make_roundtrip_harness(symbols, leaves: int, depth: int, decimals: int):
         from pyimpspec.circuit.circuit import Circuit
         classes = _classes()
         budget = [leaves]
-        tree = gen_connection(eng, "c", symbols, ("value_lower_upper", "inf_limits", "value_lower_inf", "value_inf_upper"), depth, budget, rich=False)
+        top = eng.scratch.get("container_top")
+        if top is None:
+            tree = gen_connection(eng, "c", symbols, ("omitted",), depth, budget, rich=False)
+        else:
+            budget[0] -= 1
+            tlm = gen_element(eng, "c.0", ["Tlm"], ("omitted",), 1, budget, rich=False)
+            if top == 0:
+                tree = CON("S", [tlm])
+            else:
+                r = EL("R")
+                r.spec["R"], r.given["R"] = gen_param(eng, classes["R"], "R", "c.1.R", ("omitted",))
+                tree = CON("S" if top == 1 else "P", [r, tlm])
         S = Sentinels()
         pairs: List[Tuple[Any, float]] = []
 
-        def build(node):
+        def build(node, norm=False):
             if isinstance(node, CON):
-                return (Series if node.kind == "S" else Parallel)([build(k) for k in node.items])
+                return (Series if node.kind == "S" else Parallel)([build(k, norm) for k in node.items])
             Class = classes[node.sym]
             kw = {}
             for key, sub in node.subs.items():
-                kw[key] = None if sub == "open" else (Series([]) if sub == "short" else build(sub if isinstance(sub, CON) else CON("S", [sub])))
+                if isinstance(sub, str):
+                    kw[key] = None if sub == "open" else Series([])
+                    continue
+                sub = sub if isinstance(sub, CON) else CON("S", [sub])
+                if norm:
+                    # the parser's normal form of a sub-circuit: merged, a series of one connection is that connection
+                    sub = normalise(sub)
+                    if isinstance(sub, EL):
+                        sub = CON("S", [sub])
+                kw[key] = build(sub, norm)
             el = Class(**kw)
+            if not symbolic_state:
+                for key in Class.get_default_values():
+                    node.given[key] = {"value": Class.get_default_value(key), "lower": Class.get_default_lower_limit(key),
+                                       "upper": Class.get_default_upper_limit(key), "fixed": Class.is_fixed_by_default(key)}
+                return el
             node.label = LABELS[eng.choice(len(LABELS), "lab")]
             el.set_label(node.label)
             for key in Class.get_default_values():
@@ -406,16 +465,18 @@ def make_roundtrip_harness(symbols, leaves: int, depth: int, decimals: int):
             return ids.setdefault(id(node), len(ids))
         built: Dict[int, Any] = {}
 
-        def build_once(node):
+        def build_once(node, norm=False):
             if isinstance(node, CON):
-                return (Series if node.kind == "S" else Parallel)([build_once(k) for k in node.items])
-            if id(node) not in built:
-                built[id(node)] = build(node)
-            return built[id(node)]
+                return (Series if node.kind == "S" else Parallel)([build_once(k, norm) for k in node.items])
+            has_sub = any(not isinstance(v, str) for v in node.subs.values())
+            key = (id(node), norm and has_sub)
+            if key not in built:
+                built[key] = build(node, norm)
+            return built[key]
         con = build_once(tree)
         circuit = Circuit(con)
         text = circuit.to_string(decimals)
-        expected_text = Circuit(build_once(normalise(tree, top=True))).to_string(decimals)
+        expected_text = Circuit(build_once(normalise(tree, top=True), norm=True)).to_string(decimals)
         eng.note_input("text", text)
         if not eng.symbolic:
             from pyimpspec import parse_cdc
@@ -437,6 +498,17 @@ def make_roundtrip_harness(symbols, leaves: int, depth: int, decimals: int):
         if ok3:
             ok4, text3 = call(cp.to_string, decimals)
             eng.check(ok4 and text3 == text2, "a deep copy serialises identically", lambda: "%r vs %r" % (text3, text2))
+    return harness
+
+
+def make_container_roundtrip_harness(decimals: int):
+    """one container element (alone, or beside a resistor in series / in parallel) whose sub-circuits take every form"""
+    def harness(eng):
+        eng.scratch["plain"] = True
+        inner = make_roundtrip_harness(["Tlm"], 8, 1, decimals, symbolic_state=False)
+        top = eng.choice(3, "top")
+        eng.scratch["container_top"] = top
+        inner(eng)
     return harness
 
 
@@ -505,7 +577,7 @@ def obligations(tier: str):
     # one element, every parameter spelling
     for sym in (("R", "Q", "C") if quick else ("R", "Q", "C", "W", "L", "Tlm")):
         n_par = len(_classes()[sym].get_default_values())
-        forms = FORMS if (n_par == 1 or not quick) else no_pct
+        forms = FORMS if (n_par == 1 or not quick) else ("omitted", "value", "value_lower_upper", "value_upper", "upper_inf", "lower_upper_inf")
         o = Obligation("spelling.one.%s" % sym, make_spelling_harness([sym], forms, 1, 1 if sym == "Tlm" else 0, sym),
                        bounds="one %s element inside series/parallel brackets; every parameter in one of %d spellings %r; labels %r; fixed marker F/f/none; "
                               "implicit or explicit outer series; version header; blanks between tokens" % (sym, len(forms), forms, LABELS),
@@ -529,6 +601,10 @@ def obligations(tier: str):
                                          "relative to class defaults), fixed flags, labels symbolic/enumerated" % (d, sym),
                                   functions=funcs, stubs=stubs, expect_reach=["parsed", "same values", "re-serialising gives the identical text"],
                                   max_paths=2000000))
+    obs.append(Obligation("roundtrip.container", make_container_roundtrip_harness(12),
+                          bounds="to_string(12) -> parse of [Tlm], [R Tlm], (R Tlm) whose X_1 sub-circuit is default / open / short / one of %d shapes "
+                                 "(incl. series made of connections only) and X_2 default / open / short" % len(SUB_SHAPES),
+                          functions=funcs, stubs=stubs, expect_reach=["parsed", "re-serialising gives the identical text"], max_paths=2000000))
     for n in ((1, 2) if quick else (1, 2, 3)):
         obs.append(Obligation("label.%d" % n, make_label_harness(n), bounds="every label of %d characters (any code point) accepted by set_label" % n,
                               functions=funcs + [base.Element.set_label], key=_label_key, expect_reach=["label accepted by set_label"],
